@@ -187,6 +187,33 @@ def run(ctx):
                     ctx.disagree('error differs', case, val, o)
             elif 'out' not in o or o['out'] != GG.canon_result(val):
                 ctx.disagree('check_response differs from the model', case, GG.canon_result(val), o)
+    # ---- (3b) no character is altered, on either side: strings that differ as code-point sequences are different, also when they LOOK alike
+    # (combining sequences vs precomposed letters, OHM SIGN vs GREEK OMEGA, ANGSTROM SIGN vs A WITH RING); the configured answer is kept as written
+    import unicodedata
+    looks = ['e\u0301cole', '\u00e9cole', '\u2126', '\u03a9', '\u212bngstrom', '\u00c5ngstrom', 'A\u030angstrom', 'caf\u00e9', 'cafe\u0301', 'na\u00efve', 'nai\u0308ve', 'x\u00b2', 'x2']
+    for expect in looks:
+        g = StringGrader(answers=expect)
+        for stu in looks + [unicodedata.normalize('NFC', expect), unicodedata.normalize('NFD', expect)]:
+            kind, val = GG.run_impl(lambda: g(None, stu))
+            want = (stu == expect)
+            case = {'part': 'lookalike', 'expect': expect.encode('unicode_escape').decode(), 'student': stu.encode('unicode_escape').decode()}
+            ctx.case(case, nontrivial_key=('lookalike', expect, stu), kind='lookalike:' + ('same' if want else 'different'))
+            if not (kind == 'out' and (val['ok'] is True) == want):
+                ctx.violation('code-point sequences %s but the submission is %s' % ('equal' if want else 'different', 'refused' if want else 'accepted'), case, impl=val if kind == 'err' else GG.canon_result(val))
+    # ---- (3c) a grader's wrong_msg stays its own: a silent refusal (explain_* = None) of ANOTHER grader shows nothing
+    for opt in ('explain_minimums', 'explain_validation'):
+        kw = dict(accept_any=True, min_length=3) if opt == 'explain_minimums' else dict(answers='cat', validation_pattern='[a-z]+')
+        bad_in = 'ab' if opt == 'explain_minimums' else 'C4T!'
+        first = StringGrader(wrong_msg='message of the FIRST grader', **dict(kw, **{opt: None}))
+        GG.run_impl(lambda: first(None, bad_in))
+        for second_kw in ({}, {'wrong_msg': 'second'}):
+            second = StringGrader(**dict(kw, **{opt: None}), **second_kw)
+            kind, val = GG.run_impl(lambda: second(None, bad_in))
+            want_msg = second_kw.get('wrong_msg', '')
+            case = {'part': 'silent-refusal', 'option': opt, 'second_wrong_msg': want_msg}
+            ctx.case(case, nontrivial_key=('silent', opt, want_msg), kind='silent-refusal')
+            if not (kind == 'out' and val['ok'] is False and val['msg'] == want_msg):
+                ctx.violation('a silent refusal shows %r instead of the grader\'s own wrong_msg %r (another grader was used before)' % (val['msg'] if kind == 'out' else val, want_msg), case, impl=val if kind == 'err' else GG.canon_result(val))
     # ---- (4) through the whole grader: expect=None in accept_any mode
     g = StringGrader(accept_any=True)
     k, v = GG.run_impl(lambda: g(None, 'anything'))
